@@ -113,6 +113,20 @@ pub fn grammars(tier: &str) -> Vec<LexGrammar> {
             LexGrammar { id: g.name.clone(), g, toks, kind: "structure", space_extra: false, alphabet: vec!["a", "b"] }
         }).collect()
     };
+    // (v) large character classes: tokens built from Unicode properties (hundreds of ranges each, rendered as shared
+    // character-set tables) that include, overlap or exclude one another, every ordered pair and triple in one state
+    let classes: Vec<LexGrammar> = {
+        let cm: Vec<&str> = vec!["\\p{L}+", "\\p{Lu}+!", "\\p{Ll}+\\?", "\\p{Lu}\\p{Ll}*", "[\\p{L}\\p{N}]+", "\\p{N}+", "[^\\p{L}\\s!?]+"];
+        let mut lists: Vec<Vec<usize>> = vec![];
+        for a in 0..cm.len() { for b in 0..cm.len() { if a != b { lists.push(vec![a, b]); for c in 0..cm.len() { if c != a && c != b && tier == "thorough" { lists.push(vec![a, b, c]); } } } } }
+        lists.into_iter().map(|ixs| {
+            let toks: Vec<TokDef> = ixs.iter().enumerate().map(|(i, &k)| mk_tok(i, (cm[k], false), None)).collect();
+            let mut g = G::new(&format!("lxu_{}", ixs.iter().map(|k| k.to_string()).collect::<Vec<_>>().join("_"))).rule("source", rep(choice(toks.iter().map(|t| sym(&t.name)).collect())));
+            for t in &toks { g = g.rule(&t.name, t.expr.clone()); }
+            g = g.extras(vec![pat(" ")]);
+            LexGrammar { id: g.name.clone(), g, toks, kind: "classes", space_extra: true, alphabet: vec!["a", "A", "é", "É", "1", "!", "?", " "] }
+        }).collect()
+    };
     let pick = |v: Vec<LexGrammar>| -> Vec<LexGrammar> {
         if cap == 0 || v.len() <= cap { return v; }
         let step = v.len() as f64 / cap as f64;
@@ -125,6 +139,7 @@ pub fn grammars(tier: &str) -> Vec<LexGrammar> {
     out.extend(pick(ctx2));
     out.extend(kws);
     out.extend(structs);
+    out.extend(classes);
     out
 }
 
@@ -210,7 +225,7 @@ fn reference(lg: &LexGrammar, rl: &RefLexer, text: &str) -> (Option<Vec<(String,
     let bytes = text.as_bytes();
     let skip = |mut p: usize| { if lg.space_extra { while p < bytes.len() && bytes[p] == b' ' { p += 1; } } p };
     match lg.kind {
-        "soup" => {
+        "soup" | "classes" => {
             let all: Vec<usize> = (0..lg.toks.len()).collect();
             loop {
                 pos = skip(pos);
@@ -287,6 +302,7 @@ pub fn check_grammar(lg: &LexGrammar, maxlen: usize, res: &mut ShardResult) {
     let mut parser = Parser::new();
     parser.set_language(&l.language).unwrap();
     let prefixes: Vec<&str> = if lg.kind == "context" { vec!["x", "y"] } else if lg.kind == "structure" { STRUCT_PREFIXES[..lg.toks.len()].to_vec() } else { vec![""] };
+    let maxlen = if lg.kind == "classes" { maxlen.min(4) } else { maxlen };
     for len in 0..=maxlen {
         let mut stop = false;
         let mut run = |ix: &[usize], res: &mut ShardResult| {
